@@ -204,7 +204,7 @@ def St.computeHandlers (s : St) (r : Nat) (name : Name) (chans : List Chan) : Li
 def St.dispComplete (s : St) (e : Nat) (ev : Ev) : St :=
   if ev.complete then
     (if ev.cause.isNone then s.modEv e fun x => { x with cause := some e } else s).modEv e
-      fun x => { x with effects := 1 }
+      fun x => { x with effects := 1, selfDone := false }
   else s
 
 /-- `if self._cache_needs_refresh: …` -/
@@ -230,7 +230,7 @@ def St.dispGE (s : St) (r e remaining : Nat) (name : Name) : St :=
 def St.dispatchPre (s : St) (r e remaining : Nat) : Option (List Nat) × St :=
   let s0 := s.logE (.disp e)
   let ev := s0.ev e
-  if ev.cancelled then (none, s0)
+  if ev.cancelled then (none, s0.modEv e fun x => { x with selfDone := true })
   else
     let s1 := (s0.dispComplete e ev).cacheRefresh r
     let res := s1.lookupHandlers r ev.name ev.chans
